@@ -289,15 +289,19 @@ def Schema.validate (fm : FloatModel) (s : Schema) (d : Doc) : Bool :=
     | some v => fieldValidate fm f.ty v
     | none => !f.required)
 
+/-- `normalize_fields`, one entry: prune then normalize under the field declared for the index -/
+def renorm (fm : FloatModel) (s : Schema) (e : Nat × FieldValue) : Nat × FieldValue :=
+  match s.byIdx e.1 with
+  | some f => (e.1, normalize fm f.ty (prune f.ty e.2))
+  | none => e
+
 /-- `Document::try_from_doc`: reject never-allocated indexes, drop retired ones, prune + normalize
 each declared field, validate. -/
 def tryFromDoc (fm : FloatModel) (s : Schema) (d : Doc) : Option Doc :=
   if d.any (fun e => decide (e.1 ≥ s.allocatedIdxEnd)) then none
   else
     let d1 := d.filter (fun e => s.idxs.contains e.1)
-    let d2 := d1.map (fun e => match s.byIdx e.1 with
-      | some f => (e.1, normalize fm f.ty (prune f.ty e.2))
-      | none => e)
+    let d2 := d1.map (renorm fm s)
     if s.validate fm d2 then some d2 else none
 
 /-- insert / replace keeping idx order (`BTreeMap::insert`) -/
